@@ -28,6 +28,9 @@ CLAIMED = {
     "C02": ("model-based conversation programs on an in-process gateway pair under a deterministic scheduler (generated bounded-preemption schedules, line-level preemption, strided/exhaustive single preemption), scripted transports with generated chunking; transcript oracle; real-thread cross-check",
             "Generated multi-channel, multi-thread conversation programs are executed with both gateway ends in one process on a scheduler that owns every lock/event/queue/thread/transport operation; the transcript oracle derives from the program alone what every consumer must have seen (multiset, per-sender order, exact sequence for single consumers, no foreign items). The same programs run on real popen workers with payloads up to 300 KB (quick) / 4 MB (thorough).",
             "Sampling of schedules; single-preemption slices are complete only in the thorough tier. Scheduler fidelity is self-tested per shard. Cross-sender order is not asserted.", "3/C02"),
+    "C08": ("round-trip of generated frames through the real IO classes over scripted transports with generated chunking vs. a reference frame codec; concurrent senders under the deterministic scheduler with a wire-parsing oracle; real multi-threaded transfers over popen/socket/via",
+            "Generated messages (all types, full channel-id range, payloads to 256 KB / 8 MB) must produce exactly the reference frame bytes and be read back identically under every generated read chunking and partial-send pattern; with 2-5 concurrent sender threads under a generated schedule (plus line-level and strided/exhaustive single preemption) the recorded wire must parse into whole reference frames with per-sender order intact; real transports carry multi-sender programs with payloads beyond pipe/socket buffers and a transcript oracle.",
+            "Sampling. Scripted transports model documented OS behaviour (short reads, partial sends, atomic pipe write per call). Real part has a 150 s watchdog per program (normal < 2 s).", "3/C08"),
 }
 
 NOT_APPLICABLE = {}
